@@ -741,9 +741,13 @@ func runHubScope(c *Ctx) {
 		ast.Inspect(f.Body, func(n ast.Node) bool {
 			if as, ok := n.(*ast.AssignStmt); ok && len(as.Rhs) == 1 {
 				if call, ok := ast.Unparen(as.Rhs[0]).(*ast.CallExpr); ok {
-					if g := p.CalleeInfo(f.Info(), call); g != nil && (g.Name == "session.(*Store).GetByJoinCode" || g.Name == "session.(*Store).Create") {
-						if o := ObjOf(f.Info(), as.Lhs[0]); o != nil {
-							sessObjs[o] = true
+					// any method of *session.Store that returns a session.Session: the server's own record, keyed by join code or freshly created
+					if fn := Callee(f.Info(), call); fn != nil && fn.Pkg() != nil && fn.Pkg().Path() == RepoPkg("internal/session") {
+						sig := fn.Type().(*types.Signature)
+						if sig.Recv() != nil && recvTypeName(sig.Recv().Type()) == "Store" && sig.Results().Len() >= 1 && strings.HasSuffix(sig.Results().At(0).Type().String(), "session.Session") {
+							if o := ObjOf(f.Info(), as.Lhs[0]); o != nil {
+								sessObjs[o] = true
+							}
 						}
 					}
 				}
